@@ -45,6 +45,9 @@ class BitcoinSolutionChecker(SegwitChecker, P2SChecker):
         to be removed.
         """
         subscript = self.ScriptTools.compile_push_data_list([sig_blob])
+        if len(sig_blob) == 1:
+            # consensus removes the push as `CScript() << sig` writes it: by length alone, never as OP_1..OP_16/OP_1NEGATE
+            subscript = b"\x01" + sig_blob
         new_script = bytearray()
         pc = 0
         for opcode, data, pc, new_pc in self.ScriptTools.get_opcodes(script):
